@@ -1,6 +1,7 @@
 /-
 C08 — GSM 7-bit packed codec: exact alphabet, exact packing, lossless round trip.
 -/
+import Smpp.Properties.SrcGsm7
 import Smpp.Proofs.Gsm7Text
 import Smpp.Spec.Gsm0338
 import Smpp.Generated.Gsm7Facts
